@@ -15,7 +15,6 @@
 package dicescript
 
 import (
-	"errors"
 	"fmt"
 	"strings"
 	"unicode/utf8"
@@ -119,13 +118,55 @@ func formatFriendlyError(pos position, input []byte, expected []string) error {
 	return fmtErr(pos, input, msg, fmtChar)
 }
 
+// friendlyError 友好格式的语法错误。语言在错误对象上绑定(bindParseErrorLanguage)，
+// 这样一个VM的语言设置不会影响另一个VM(也不需要读写全局变量)；未绑定时使用全局设置
+type friendlyError struct {
+	pos     position
+	input   []byte
+	msg     bilingualMsg
+	char    rune
+	lang    int
+	langSet bool
+}
+
+func (e *friendlyError) Error() string {
+	lang := e.lang
+	if !e.langSet {
+		verifShared("parseErrorLanguage", false)
+		lang = parseErrorLanguage
+	}
+	return renderFriendlyError(e.pos, e.input, e.msg, e.char, lang)
+}
+
+// bindParseErrorLanguage 将解析错误中的友好错误绑定到指定语言
+func bindParseErrorLanguage(err error, lang int) {
+	bind := func(e error) {
+		if pe, ok := e.(*parserError); ok {
+			e = pe.Inner
+		}
+		if fe, ok := e.(*friendlyError); ok {
+			fe.lang, fe.langSet = lang, true
+		}
+	}
+	if lst, ok := err.(errList); ok {
+		for _, e := range lst {
+			bind(e)
+		}
+		return
+	}
+	bind(err)
+}
+
 // fmtErr 格式化错误输出
 func fmtErr(pos position, input []byte, msg bilingualMsg, char rune) error {
+	return &friendlyError{pos: pos, input: input, msg: msg, char: char}
+}
+
+func renderFriendlyError(pos position, input []byte, msg bilingualMsg, char rune, lang int) string {
 	var sb strings.Builder
 
-	verifShared("parseErrorLanguage", false)
 	// 标题
-	switch parseErrorLanguage {
+	switch lang {
 	case ParseErrorLanguageChinese:
 		sb.WriteString("语法错误\n")
 	case ParseErrorLanguageEnglish:
@@ -134,7 +175,6 @@ func fmtErr(pos position, input []byte, msg bilingualMsg, char rune) error {
 		sb.WriteString("语法错误 Syntax Error\n")
 	}
 
-	// 上下文（如果有输入）
 	if len(input) > 0 {
 		sb.WriteString("  |\n")
 		line := getLineAtBytes(input, pos.line)
@@ -158,7 +198,7 @@ func fmtErr(pos position, input []byte, msg bilingualMsg, char rune) error {
 	}
 
 	// 位置和消息
-	switch parseErrorLanguage {
+	switch lang {
 	case ParseErrorLanguageChinese:
 		sb.WriteString(fmt.Sprintf("  位置 %d:%d - %s", pos.line, pos.col, cn))
 	case ParseErrorLanguageEnglish:
@@ -168,7 +208,7 @@ func fmtErr(pos position, input []byte, msg bilingualMsg, char rune) error {
 		sb.WriteString(fmt.Sprintf("  Pos %d:%d - %s", pos.line, pos.col, en))
 	}
 
-	return errors.New(sb.String())
+	return sb.String()
 }
 
 // getLineAtBytes 获取指定行的内容
